@@ -6,6 +6,8 @@ R-C03-2  exactly one result per member, in order: every path through one iterati
          result; the loop walks proofs/statements in order; chunk results are appended in chunk order and returned
 R-C03-3  refusal guards: empty / mismatched inputs; every member agrees with member 0 on generators, bit length, extension
          degree (statement and len(d1)); vector generators are compared (prefix) with the largest member
+R-C03-5  (= R-C04-3/designated) data of the first member absorbed into every member's transcript is compared across members by the
+         consistency function: a member is verified in a batch against the same data as alone
 R-C03-4  batch weighting (= R-C08-1..3): the batch verdict is the conjunction of the members' verdicts only if every member's equation
          enters the single gate under its own fresh non-zero weight
 """
@@ -334,3 +336,9 @@ def run(ctx):
     from . import C08
     from .common import shared
     shared(ctx, C08.run, 'R-C08', 'R-C03-4')
+    # R-C03-5 (= R-C04-3/designated): what a member is verified against in a batch is what it is verified against alone
+    from . import C04, wire
+    vb_ = wire.entry(ctx, 'verifier', 'R-C03-5')
+    if vb_ is not None:
+        mine_, _, _ = wire.proof_events(ctx, vb_, 'R-C03-5')
+        shared(ctx, lambda c: C04.designated_member_data(c, vb_, mine_, 'R-C04-3'), 'R-C04-3', 'R-C03-5')
